@@ -138,3 +138,26 @@ Proof.
   cbv zeta. split; [|split; [|split; [|split]]];
     try (apply premises_sound; vm_compute; reflexivity); vm_compute; reflexivity.
 Qed.
+
+From AC.Model Require Import StringForm.
+From AC.Proofs Require Import StringFormProofs.
+Local Open Scope list_scope.
+
+(* numeric-looking qualitative values are matched through their string form: after
+   StringDiscretizer.fit_feature every raw value's leader is its string form, so 1, 1.0 and "1"
+   share one group (for ANY column and ANY str() table) *)
+Theorem C04_values_matched_through_their_string_form :
+  forall (t : sf_table) (raw : list val) (has_nan : bool) (nan : val) (g : gl),
+  NoDup raw -> sf_closed t raw -> nan_fresh t raw has_nan nan ->
+  string_fit t raw has_nan nan = Ok g ->
+  forall v, In v raw -> get_group g v = str_form t v.
+Proof. exact fit_feature_groups_by_string_form. Qed.
+Print Assumptions C04_values_matched_through_their_string_form.
+
+Theorem C04_string_discretizer_total_and_wf :
+  forall (t : sf_table) (raw : list val) (has_nan : bool) (nan : val),
+  NoDup raw -> sf_closed t raw -> nan_fresh t raw has_nan nan ->
+  exists g, string_fit t raw has_nan nan = Ok g /\ WF g.
+Proof. exact fit_feature_ok. Qed.
+Print Assumptions C04_string_discretizer_total_and_wf.
+
